@@ -178,21 +178,25 @@ pub static PAGES: [PageEnt; NPG] = [const {
     }
 }; NPG];
 pub static NPAGES: AtomicUsize = AtomicUsize::new(0);
+/// Per-run knob (swarm): freed page-aligned blocks are handed out again (LIFO, same size)
+/// instead of being quarantined behind PROT_NONE. Quarantine turns every stale use into a
+/// fault, but it also hides bugs that need an *address to come back* - anything keyed by the
+/// address of machine code or its data section.
+pub static PAGE_REUSE: std::sync::atomic::AtomicBool = std::sync::atomic::AtomicBool::new(false);
+pub static ST_PAGE_REUSED: AtomicU64 = AtomicU64::new(0);
+
+const NMOD: usize = 8192;
+static MOD_ALLOC: [AtomicU32; NMOD] = [const { AtomicU32::new(0) }; NMOD];
+static MOD_FREE: [AtomicU32; NMOD] = [const { AtomicU32::new(0) }; NMOD];
+fn mod_slot(module: u32) -> usize {
+    (module as usize) % NMOD
+}
 
 /// (live blocks, freed blocks) of page-aligned memory attributed to `module`
 pub fn module_pages(module: u32) -> (usize, usize) {
-    let n = NPAGES.load(SeqCst).min(NPG);
-    let (mut l, mut f) = (0, 0);
-    for e in &PAGES[..n] {
-        if e.module.load(SeqCst) == module {
-            match e.state.load(SeqCst) {
-                PG_LIVE => l += 1,
-                PG_FREED => f += 1,
-                _ => {}
-            }
-        }
-    }
-    (l, f)
+    let a = MOD_ALLOC[mod_slot(module)].load(SeqCst) as usize;
+    let f = MOD_FREE[mod_slot(module)].load(SeqCst) as usize;
+    (a.saturating_sub(f), f)
 }
 
 /// Attribute an address to a page block: (module, state, freed_step)
@@ -287,6 +291,37 @@ fn align_up(x: usize, a: usize) -> usize {
 unsafe fn arena_alloc(size: usize, align: usize, run: bool) -> *mut u8 {
     arena_init();
     let page = align >= PAGE;
+    if page && PAGE_REUSE.load(Relaxed) {
+        // most recently freed block of exactly this size
+        let n = NPAGES.load(SeqCst).min(NPG);
+        let want = align_up(size.max(1), PAGE);
+        let mut best: Option<usize> = None;
+        for (i, e) in PAGES[..n].iter().enumerate() {
+            if e.state.load(SeqCst) == PG_FREED && e.len.load(SeqCst) == want && e.start.load(SeqCst) % align == 0 {
+                if best.map(|b| PAGES[b].freed_step.load(SeqCst) <= e.freed_step.load(SeqCst)).unwrap_or(true) {
+                    best = Some(i);
+                }
+            }
+        }
+        if let Some(i) = best {
+            let e = &PAGES[i];
+            let user = e.start.load(SeqCst);
+            unsafe {
+                let h = (user - HDR) as *mut Header;
+                (*h).magic = LIVE;
+                (*h).size = size;
+                (*h).align = align;
+                (*h).seq = SEQ.fetch_add(1, Relaxed);
+                std::ptr::write_bytes(user as *mut u8, POISON_FRESH, size);
+            }
+            e.module.store(CUR_MODULE.try_with(|c| c.get()).unwrap_or(u32::MAX), SeqCst);
+            e.state.store(PG_LIVE, SeqCst);
+            MOD_ALLOC[mod_slot(CUR_MODULE.try_with(|c| c.get()).unwrap_or(u32::MAX))].fetch_add(1, SeqCst);
+            ST_PAGE_REUSED.fetch_add(1, Relaxed);
+            ST_PAGE_ALLOCS.fetch_add(1, Relaxed);
+            return user as *mut u8;
+        }
+    }
     loop {
         let base = ARENA_TOP.load(Acquire);
         let user = align_up(base + PRE + HDR, align.max(1));
@@ -329,6 +364,7 @@ unsafe fn arena_alloc(size: usize, align: usize, run: bool) -> *mut u8 {
                     e.frees.store(0, SeqCst);
                     e.state.store(PG_LIVE, SeqCst);
                 }
+                MOD_ALLOC[mod_slot(CUR_MODULE.try_with(|c| c.get()).unwrap_or(u32::MAX))].fetch_add(1, SeqCst);
                 ST_PAGE_ALLOCS.fetch_add(1, Relaxed);
             }
         }
@@ -417,10 +453,13 @@ unsafe impl GlobalAlloc for SimAlloc {
                 if flags & F_PAGE != 0 {
                     let len = align_up(size.max(1), PAGE);
                     std::ptr::write_bytes(p, POISON_FREED, size);
-                    libc::mprotect(p as *mut _, len, libc::PROT_NONE);
+                    if !PAGE_REUSE.load(Relaxed) {
+                        libc::mprotect(p as *mut _, len, libc::PROT_NONE);
+                    }
                     let n = NPAGES.load(SeqCst).min(NPG);
                     for e in &PAGES[..n] {
                         if e.start.load(SeqCst) == p as usize {
+                            MOD_FREE[mod_slot(e.module.load(SeqCst))].fetch_add(1, SeqCst);
                             e.state.store(PG_FREED, SeqCst);
                             e.freed_step.store(CUR_STEP.load(Relaxed), SeqCst);
                             e.frees.fetch_add(1, SeqCst);
